@@ -89,6 +89,8 @@ def as_symseq(interp, it):
             kidx = seq_index_fn(interp, kp)
             r.at_key = lambda t: tuple((V.TRef(t) if p is kp else p.get(kidx(t))) for p in parts)
         return r
+    if isinstance(it, V.SymIter):
+        return it.consume()
     if isinstance(it, V.SymMap):
         return it.keys
     if isinstance(it, MapView):
@@ -1153,7 +1155,11 @@ def compare(interp, op, a, b):
     if isinstance(a, ATen) or isinstance(b, ATen):
         return aten_compare(interp, op, a, b)
     if isinstance(a, LTen) or isinstance(b, LTen):
-        raise Unsupported("comparison of layout tensors")
+        from .lten import LPred
+        return LPred(cx.fresh_bool("tensor_cmp"))
+    if type(a).__name__ == "LPred" or type(b).__name__ == "LPred":
+        from .lten import LPred
+        return LPred(cx.fresh_bool("pred_cmp"))
     if isinstance(op, (ast.Eq, ast.NotEq)):
         r = sym_eq(interp, a, b)
         if r is MISSING:
